@@ -66,21 +66,21 @@ type wrun struct {
 	cover string // id of the open finding whose matcher condition currently holds ("" = none)
 	uncov bool   // an oracle failure occurred while no matcher condition held
 
-	st        *memStore
-	t         *wmpt.WeightedMerkleTrie
-	live      wcontent
-	committed wcontent
-	croot     []byte
-	cweight   uint64
-	dirty     bool
+	st          *memStore
+	t           *wmpt.WeightedMerkleTrie
+	live        wcontent
+	committed   wcontent
+	croot       []byte
+	cweight     uint64
+	dirty       bool
 	hashedDirty bool
-	muts      int
-	commits   int
+	muts        int
+	commits     int
 
-	f2seen       bool // two live keys carried byte-equal (value, weight) at some time
-	cp           *wcheckpoint
-	lastPuts     map[string]bool // keys written by the most recent commit batch since the checkpoint
-	durable      []wdurable
+	f2seen   bool // two live keys carried byte-equal (value, weight) at some time
+	cp       *wcheckpoint
+	lastPuts map[string]bool // keys written by the most recent commit batch since the checkpoint
+	durable  []wdurable
 
 	slots map[int]*wslot
 
